@@ -119,6 +119,15 @@ impl s2n_quic::provider::stateless_reset_token::Generator for SResetTokens {
     }
 }
 
+impl s2n_quic::provider::stateless_reset_token::Provider for SResetTokens {
+    type Generator = Self;
+    type Error = core::convert::Infallible;
+
+    fn start(self) -> std::result::Result<Self::Generator, Self::Error> {
+        Ok(self)
+    }
+}
+
 macro_rules! build {
     ($builder:expr, $handle:expr, $cfg:expr, $ep:expr, $lim:expr, $tls:expr, $salt:expr) => {{
         let mut io = $handle.builder();
